@@ -128,7 +128,9 @@ fn reduce_list<T: Clone>(items: Vec<T>, min: &mut Min, test: &mut dyn FnMut(&mut
     cur
 }
 
-pub fn minimise_and_confirm(v: &ViolationRec, budget: Duration) -> Replay {
+/// None = the violation could not be reproduced in a fresh process (three attempts): it was a
+/// one-off caused by the environment, not a property of the code under test.
+pub fn minimise_and_confirm(v: &ViolationRec, budget: Duration) -> Option<Replay> {
     let viol = v.outcome.violation.clone().unwrap();
     let original = v.outcome.recorded.clone().unwrap_or_else(|| v.case.clone());
     let mut min = Min {
@@ -143,11 +145,27 @@ pub fn minimise_and_confirm(v: &ViolationRec, budget: Duration) -> Replay {
         trace: v.outcome.trace.clone(),
         minimised: false,
     };
+    if viol.class == "process-abort" {
+        // already confirmed by the driver (the process dies again in a fresh run)
+        return Some(fallback);
+    }
+    // the strict recording must fail again in a fresh process before anything is reported
+    let mut confirmed = false;
+    for _ in 0..3 {
+        if min.fails(&original).is_some() {
+            confirmed = true;
+            break;
+        }
+    }
+    if !confirmed {
+        let _ = std::fs::remove_dir_all(&min.dir);
+        return None;
+    }
     let mut cur = loosen(&original);
     if min.fails(&cur).is_none() {
         // not reproducible in loosened form: report the strict recording as is
         let _ = std::fs::remove_dir_all(&min.dir);
-        return fallback;
+        return Some(fallback);
     }
 
     // 1. fewer pool threads
@@ -270,5 +288,5 @@ pub fn minimise_and_confirm(v: &ViolationRec, budget: Duration) -> Replay {
         None => fallback,
     };
     let _ = std::fs::remove_dir_all(&min.dir);
-    result
+    Some(result)
 }
